@@ -116,6 +116,9 @@ type CustomCodec struct {
 	Ref func(state uint64) []byte                           // documented bytes (without the object code)
 	Set func(dst reflect.Value, state uint64)               // store into an addressable Go value
 	Get func(src reflect.Value) uint64
+
+	Arena   bool // Encode returns a window into the shared arena (spare capacity = the neighbours' bytes)
+	JSONKey bool // EncodeJSON yields a string, so the type can be a map key in the JSON form
 }
 
 // Field is one serix-tagged struct field.
@@ -418,6 +421,10 @@ func (s *Shape) jsonOK(depth int, seen map[*Shape]bool) bool {
 	case Map:
 		switch s.Key.Kind {
 		case String, Int64, Uint64:
+		case Custom:
+			if !s.Key.Codec.JSONKey {
+				return false
+			}
 		case ByteArray:
 			if s.Key.Code != nil || s.Key.N == 0 {
 				return false
